@@ -22,12 +22,21 @@ Open Scope N_scope.
 Inductive blob :=
 | BH (id : N)    (* header signed by the genesis proposer, ValidateBasic = nil: headerCache.SetDAIncluded (retriever.go:112-148) *)
 | BD (id : N)    (* signed data of the proposer with >= 1 tx and metadata: dataCache.SetDAIncluded (retriever.go:162-187) *)
+| BF (id : N)    (* a FORGED copy of header [id]: decodes as a signed header with the fields of the genuine one (hence the
+                    same header hash, the key of headerCache) but is not validly signed by the genesis proposer
+                    (any signature bytes, the proposer's signature of another header, somebody else's key and signature):
+                    SignedHeader.ValidateBasic / isUsingExpectedSingleSequencer reject it (retriever.go:127-141) BEFORE the
+                    cache is touched, whether or not the hash is already marked as seen: ignored *)
+| BG (id : N)    (* a forged copy of signed data [id] (same transactions, hence the same commitment, the key of
+                    dataCache; not validly signed by the proposer): isValidSignedData rejects it (retriever.go:174-177): ignored *)
 | BJ.            (* every other byte string: ignored *)
 
 Definition blob_eqb (a b : blob) : bool :=
   match a, b with
   | BH x, BH y => (x =? y)
   | BD x, BD y => (x =? y)
+  | BF x, BF y => (x =? y)
+  | BG x, BG y => (x =? y)
   | BJ, BJ => true
   | _, _ => false
   end.
@@ -75,7 +84,7 @@ Fixpoint proc (n : nat) (l : listing) (fs : list fault) : pres :=
 
 (* handlePotentialHeader / handlePotentialData over the blobs of DA height [da], in order *)
 Definition mark_items (da : N) (bl : list blob) : list item :=
-  flat_map (fun b => match b with BH id => [IMarkH id da] | BD id => [IMarkD id da] | BJ => [] end) bl.
+  flat_map (fun b => match b with BH id => [IMarkH id da] | BD id => [IMarkD id da] | BF _ | BG _ | BJ => [] end) bl.
 
 Record fnode := {
   nd : node;                   (* the includer's view: Model/Includer.v *)
@@ -167,3 +176,9 @@ Fixpoint served (n : nat) (fs : list fault) : bool :=
             end
   end.
 Definition n_served (fss : list (list fault)) : N := N.of_nat (length (filter (served retries) fss)).
+
+(* a forged copy taken for what it is worth to the node: some byte string *)
+Definition unforge (x : blob) : blob := match x with BF _ | BG _ => BJ | _ => x end.
+Definition unforge_item (i : fitem) : fitem :=
+  match i with FPost bl => FPost (map unforge bl) | _ => i end.
+Definition is_forged (x : blob) : bool := match x with BF _ | BG _ => true | _ => false end.
